@@ -206,7 +206,8 @@ pub fn entry_json(e: u64, cb: u32) -> Value {
         "lo": if lo != 0 {1} else {0}, "hi": if hi != 0 {1} else {0},
         "cc": small(coff / cs), "cs": small((coff % cs) / 512), "cbo": small(coff % 512),
         "ns": small(ns),
-        "big": if off / cs >= HUGE as u64 || coff / cs >= HUGE as u64 {1} else {0},
+        // out of reach under the reading that applies to this entry
+        "big": if (b62 == 0 && off / cs >= HUGE as u64) || (b62 == 1 && coff / cs >= HUGE as u64) {1} else {0},
     })
 }
 
